@@ -157,6 +157,19 @@ def programs():
         {'meta': {'namespaces': {'wf': ['N'], 'mid': [''],
                                  'sub': ['N', '']},
                   'root_namespace': 'N'}})
+    # the same shapes inside a workbook (members call each other by their
+    # short names, resolved to <workbook>.<name>)
+    wb = wfgen.clone(P['by_name'][0])
+    wb['workbook'] = 'wb'
+    P['workbook_relative'] = (wb, {'wf': 'wb.wf', 'workbook': True})
+    wb2 = wfgen.clone(P['depth2'][0])
+    wb2['workbook'] = 'wb'
+    P['workbook_depth2'] = (wb2, {'wf': 'wb.wf', 'workbook': True})
+    # the child's name is the value of an expression
+    ex = wfgen.clone(P['by_name'][0])
+    ex['input'] = {'child': 'sub'}
+    ex['tasks']['a']['workflow-expr'] = ['var', 'child']
+    P['by_expression'] = (ex, {})
     return P
 
 
@@ -172,7 +185,8 @@ def scenarios(tier):
         for res in assigns[:(2 if quick and pname != 'by_name' else 3)]:
             tag = ''.join(res[k][0] for k in sorted(res))
             for rpc in (False, True):
-                if quick and rpc and pname not in ('by_name', 'depth2'):
+                if quick and rpc and pname not in ('by_name', 'depth2',
+                                                   'workbook_relative'):
                     continue
                 ov = [('start_subworkflows_via_rpc', rpc, 'engine')]
                 kw = dict(extra)
@@ -202,8 +216,8 @@ def main(tier):
     res = common.parallel_map(common.explore_job, jobs, deadline=deadline)
     rep.add_explore_results(jobs, res)
     rep.assumptions = [
-        'children called by global name within one definition file; '
-        'workbook-relative and expression-valued names only in thorough',
+        'children called by global name, by workbook-relative name (real '
+        'workbook) and by an expression-valued name',
         'transactions are atomic steps; the synchronous report of the child '
         'to the parent blocks the sending post-commit chain until handled',
     ]
